@@ -473,7 +473,14 @@ func describeOrder(names []string, rk []int) string {
 // ---- R2: case independence and digest input order ----
 
 // bufferClass classifies a []byte value by the call that filled its backing buffer.
+var bufferClassDepth int
+
 func bufferClass(fn *ssa.Function, v ssa.Value) string {
+	bufferClassDepth++
+	defer func() { bufferClassDepth-- }()
+	if bufferClassDepth > 12 {
+		return "?"
+	}
 	// find the root allocation/make of v through Slice
 	root := v
 	for {
@@ -490,6 +497,25 @@ func bufferClass(fn *ssa.Function, v ssa.Value) string {
 		n := calleeNameSSA(&call.Call)
 		if strings.HasSuffix(n, ".Sum") {
 			return "digest"
+		}
+		// a helper of the package that returns the buffer it had one of the wire packers fill
+		if g := call.Call.StaticCallee(); g != nil && g.Pkg == fn.Pkg && len(g.Blocks) > 0 {
+			classes := map[string]bool{}
+			for _, b := range g.Blocks {
+				if ret, isRet := b.Instrs[len(b.Instrs)-1].(*ssa.Return); isRet && len(ret.Results) > 0 && !isNilConst(ret.Results[0]) {
+					if _, isSl := ret.Results[0].Type().Underlying().(*types.Slice); isSl {
+						classes[bufferClass(g, ret.Results[0])] = true
+					}
+				}
+			}
+			if len(classes) == 1 {
+				for k := range classes {
+					switch k {
+					case "name", "salt", "keywire", "sigwire", "tsigwire", "macwire", "timerwire":
+						return k
+					}
+				}
+			}
 		}
 		return "call:" + n
 	}
@@ -806,6 +832,23 @@ func (c *Ctx) checkSideFill(r *Report, rule, fnName, side, srcType string, xform
 		return
 	}
 	r.fn(fnName)
+	// the filling may have been moved into a helper the function calls
+	if g := calleeWith(fn, func(f *ssa.Function) bool {
+		found := false
+		allInstrs(f, func(in ssa.Instruction) {
+			if sto, ok := in.(*ssa.Store); ok {
+				if fa, ok := sto.Addr.(*ssa.FieldAddr); ok {
+					if n := derefNamed(fa.X.Type()); n != nil && n.Obj().Name() == side {
+						found = true
+					}
+				}
+			}
+		})
+		return found
+	}); g != nil && g != fn {
+		fn = g
+		r.fn(fnDisplay(g))
+	}
 	st := c.structOf(side)
 	assigned := map[string]string{}
 	allInstrs(fn, func(in ssa.Instruction) {
